@@ -27,6 +27,8 @@ struct C1 {
     word: bool,
     /// `-S`: `RegexMatcherBuilder::case_smart(true)`
     smart: bool,
+    /// `-x`: `RegexMatcherBuilder::whole_line(true)`
+    xline: bool,
     pats: Vec<String>,
     input: Vec<u8>,
 }
@@ -34,6 +36,18 @@ struct C1 {
 impl C1 {
     fn line(&self) -> String {
         let ps: Vec<String> = self.pats.iter().map(|p| hex(p.as_bytes())).collect();
+        if self.xline {
+            return format!(
+                "re01y {} i{} F{} w{} S{} x1 {} {}",
+                self.cfg.token(),
+                self.ci as u8,
+                self.fixed as u8,
+                self.word as u8,
+                self.smart as u8,
+                ps.join(","),
+                hex(&self.input)
+            );
+        }
         if self.word || self.smart {
             return format!(
                 "re01x {} i{} F{} w{} S{} {} {}",
@@ -51,6 +65,12 @@ impl C1 {
     fn parse(s: &str) -> Option<C1> {
         let mut p: Vec<&str> = s.split_whitespace().collect();
         let (mut word, mut smart) = (false, false);
+        let mut xline = false;
+        if p.len() == 9 && p[0] == "re01y" {
+            xline = p[6] == "x1";
+            p.remove(6);
+            p[0] = "re01x";
+        }
         if p.len() == 8 && p[0] == "re01x" {
             word = p[4] == "w1";
             smart = p[5] == "S1";
@@ -68,7 +88,7 @@ impl C1 {
         for h in p[4].split(',') {
             pats.push(String::from_utf8(unhex(h)?).ok()?);
         }
-        Some(C1 { cfg, ci, fixed, word, smart, pats, input: unhex(p[5])? })
+        Some(C1 { cfg, ci, fixed, word, smart, xline, pats, input: unhex(p[5])? })
     }
 }
 
@@ -81,6 +101,9 @@ fn build_matcher(c: &C1) -> Result<RegexMatcher, String> {
     }
     if c.word {
         b.word(true);
+    }
+    if c.xline {
+        b.whole_line(true);
     }
     b.line_terminator(Some(b'\n')).dot_matches_new_line(false);
     if c.cfg.lt == Lt::Crlf {
@@ -96,7 +119,7 @@ fn build_matcher(c: &C1) -> Result<RegexMatcher, String> {
 /// pattern is searched case-insensitively iff it contains at least one literal character and none of its
 /// literal characters is uppercase. Escapes (`\w`, `\pL`, `\b`, `\x00` …), flag groups `(?…)`, counted
 /// repetitions `{m,n}` and operators contribute no literal; letters inside `[...]` are literals.
-fn smart_case_insensitive(pat: &str) -> bool {
+fn smart_case_analysis(pat: &str) -> (bool, bool) {
     let cs: Vec<char> = pat.chars().collect();
     let (mut any_lit, mut any_upper) = (false, false);
     let mut i = 0;
@@ -155,17 +178,25 @@ fn smart_case_insensitive(pat: &str) -> bool {
         }
         i += 1;
     }
-    any_lit && !any_upper
+    (any_lit, any_upper)
 }
 
 /// The user's pattern as the regex crate understands it (the reference of the property).
 fn build_reference(c: &C1) -> Result<regex::bytes::Regex, String> {
+    // smart case is ONE decision for the alternation of all the patterns ("the pattern" of the documentation; grep-regex
+    // joins them before it analyses the syntax tree); it also applies to -F, where every character is a literal
+    let (mut any_lit, mut any_upper) = (false, false);
+    for p in &c.pats {
+        let (l, u) = if c.fixed { (!p.is_empty(), p.chars().any(|ch| ch.is_uppercase())) } else { smart_case_analysis(p) };
+        any_lit |= l;
+        any_upper |= u;
+    }
+    let insensitive = c.ci || (c.smart && any_lit && !any_upper);
     let alts: Vec<String> = c
         .pats
         .iter()
         .map(|p| {
             let body = if c.fixed { regex::escape(p) } else { p.clone() };
-            let insensitive = c.ci || (c.smart && !c.fixed && smart_case_insensitive(p));
             if insensitive {
                 format!("(?i:{})", body)
             } else {
@@ -174,7 +205,10 @@ fn build_reference(c: &C1) -> Result<regex::bytes::Regex, String> {
         })
         .collect();
     let mut joined = alts.join("|");
-    if c.word {
+    if c.xline {
+        // `into_whole_line` (takes precedence over -w): the whole expression between the line anchors
+        joined = format!("(?m:^)(?:{})(?m:$)", joined);
+    } else if c.word {
         // `into_word`: the whole expression between the Unicode half-word assertions
         joined = format!("\\b{{start-half}}(?:{})\\b{{end-half}}", joined);
     }
@@ -186,8 +220,12 @@ fn build_reference(c: &C1) -> Result<regex::bytes::Regex, String> {
 }
 
 fn gen_atom(rng: &mut Rng, lt: Lt) -> String {
-    let k = rng.below(22);
+    let k = rng.below(26);
     match k {
+        22 => "\\A".into(),
+        23 => "\\z".into(),
+        24 => "(?-m:^)".into(),
+        25 => "(?-m:$)".into(),
         0 | 1 => "a".into(),
         2 => "b".into(),
         3 => "[ab]".into(),
@@ -268,7 +306,7 @@ fn gen_case(rng: &mut Rng) -> C1 {
     let pats: Vec<String> = (0..np)
         .map(|_| if fixed { ["a", "ab", "a.", "$", "\\B"][rng.below(5)].to_string() } else { gen_pattern(rng, 2, lt) })
         .collect();
-    C1 { cfg, ci: rng.chance(1, 5), fixed, word: false, smart: false, pats, input: gen_input(rng, lt) }
+    C1 { cfg, ci: rng.chance(1, 5), fixed, word: false, smart: false, xline: false, pats, input: gen_input(rng, lt) }
 }
 
 /// `-w` with patterns LIT · (group / alternation / repetition starting with a non-literal) · LIT: ripgrep's own
@@ -311,7 +349,7 @@ fn gen_word_case(rng: &mut Rng) -> C1 {
             input.extend_from_slice(lt.bytes());
         }
     }
-    C1 { cfg, ci: false, fixed: false, word: rng.chance(4, 5), smart: false, pats: vec![pat], input }
+    C1 { cfg, ci: false, fixed: false, word: rng.chance(4, 5), smart: false, xline: false, pats: vec![pat], input }
 }
 
 /// `-S`: uppercase letters only inside repetitions / groups / classes, or only as escapes (`\W`, `\pL`), mixed
@@ -336,7 +374,7 @@ fn gen_smart_case(rng: &mut Rng) -> C1 {
             input.extend_from_slice(lt.bytes());
         }
     }
-    C1 { cfg, ci: false, fixed: false, word: rng.chance(1, 6), smart: true, pats: vec![pat], input }
+    C1 { cfg, ci: false, fixed: false, word: rng.chance(1, 6), smart: true, xline: false, pats: vec![pat], input }
 }
 
 
@@ -461,7 +499,7 @@ fn gen_limit_case(rng: &mut Rng) -> C1 {
             input.extend_from_slice(lt.bytes());
         }
     }
-    C1 { cfg, ci: false, fixed: false, word, smart: false, pats: vec![pat], input }
+    C1 { cfg, ci: false, fixed: false, word, smart: false, xline: false, pats: vec![pat], input }
 }
 
 /// `-S` with patterns that contain NO literal at all (only classes, escapes, Unicode properties, anchors): smart
@@ -484,7 +522,7 @@ fn gen_smart_nolit_case(rng: &mut Rng) -> C1 {
             input.extend_from_slice(lt.bytes());
         }
     }
-    C1 { cfg, ci: false, fixed: false, word: false, smart: true, pats: vec![pat], input }
+    C1 { cfg, ci: false, fixed: false, word: false, smart: true, xline: false, pats: vec![pat], input }
 }
 
 /// Classes that could match the line terminator (`\s`, `\W`, `\D`, negated classes) and literal terminators INSIDE
@@ -525,7 +563,92 @@ fn gen_capture_case(rng: &mut Rng) -> C1 {
             input.extend_from_slice(lt.bytes());
         }
     }
-    C1 { cfg, ci: false, fixed: false, word: false, smart: false, pats: vec![pat], input }
+    C1 { cfg, ci: false, fixed: false, word: false, smart: false, xline: false, pats: vec![pat], input }
+}
+
+/// The restrictions of the other streams lifted at once: haystack anchors, half-word and start/end word
+/// assertions, `(?s:.)`, `(?-u:…)` (also matching invalid UTF-8), case-insensitive non-ASCII letters (é/É, k/K/KELVIN
+/// SIGN, s/ſ), alternations with empty branches, lazy and empty-only repetitions; -i, -S, -w, -x, -F (with `\n` / `\r`
+/// in the literal) in every combination with LF / CRLF / NUL; context sizes, line numbers off, stop_on_nonmatch,
+/// passthru, inversion; inputs with non-ASCII letters, invalid UTF-8 next to matches, lone CR, NUL, lines of only
+/// terminators, a long line.
+fn gen_probe_case(rng: &mut Rng) -> C1 {
+    let lt = *rng.pick(&[Lt::Lf, Lt::Lf, Lt::Crlf, Lt::Nul]);
+    fn atom(rng: &mut Rng, lt: Lt) -> String {
+        let xs = [
+            "\\A", "\\z", "(?-m:^)", "(?-m:$)", "\\b{start-half}", "\\b{end-half}", "\\b{start}", "\\b{end}", "(?s:.)", "(?-u:\\w)",
+            "(?-u:\\b)", "(?-u:\\B)", "(?-u:.)", "(?i:k)", "(?i:\u{e9})", "(?i:s)", "\u{212a}", "\u{17f}", "\u{e9}", "\u{c9}", "(?:|a)",
+            "(?:a|)", "(?:)", "a??", "\\s*", "x*", "k", "S", "[^a]", "\\W", "\\pL", "\\PL", "(?-u:[^a])", "$", "^", "a", ".",
+        ];
+        if rng.chance(1, 4) {
+            gen_atom(rng, lt)
+        } else {
+            rng.pick(&xs).to_string()
+        }
+    }
+    let fixed = rng.chance(1, 10);
+    let np = if rng.chance(1, 5) { 2 } else { 1 };
+    let pats: Vec<String> = (0..np)
+        .map(|_| {
+            if fixed {
+                ["a\nb", "a\rb", "a.", "\u{e9}", "K", "a", "\r", "\n", "$"][rng.below(9)].to_string()
+            } else {
+                let n = rng.range(1, 3);
+                let mut p = String::new();
+                for _ in 0..n {
+                    let a = atom(rng, lt);
+                    p.push_str(&match rng.below(8) {
+                        0 => format!("(?:{})*", a),
+                        1 => format!("(?:{})?", a),
+                        2 => format!("({})", a),
+                        3 => format!("(?:{}|{})", a, atom(rng, lt)),
+                        _ => a,
+                    });
+                }
+                p
+            }
+        })
+        .collect();
+    let cfg = Cfg {
+        lt,
+        inv: rng.chance(1, 4),
+        a: rng.range(0, 2),
+        b: rng.range(0, 2),
+        pt: rng.chance(1, 4),
+        ln: rng.chance(2, 3),
+        son: rng.chance(1, 6),
+        ml: false,
+        bin: Bin::None,
+    };
+    let words: [&[u8]; 22] = [
+        b"a", b"A", b"k", b"K", "\u{212a}".as_bytes(), b"s", b"S", "\u{17f}".as_bytes(), "\u{e9}".as_bytes(), "\u{c9}".as_bytes(), b"\xff", b"\x80",
+        b"\xc3", b"\r", b"\x00", b" ", b"b", b"ab", b"", b"x", b"\n", b"a\xffa",
+    ];
+    let mut input = vec![];
+    let nl = rng.range(0, 6);
+    for i in 0..nl {
+        if rng.chance(1, 40) {
+            input.extend(std::iter::repeat(b'a').take(300));
+        }
+        for _ in 0..rng.range(0, 3) {
+            let w = *rng.pick(&words);
+            if w == b"\n" && lt != Lt::Nul {
+                continue;
+            }
+            if w == b"\x00" && lt == Lt::Nul {
+                continue;
+            }
+            input.extend_from_slice(w);
+        }
+        if i + 1 < nl || rng.chance(3, 4) {
+            if lt == Lt::Crlf && rng.chance(1, 4) {
+                input.push(b'\n');
+            } else {
+                input.extend_from_slice(lt.bytes());
+            }
+        }
+    }
+    C1 { cfg, ci: rng.chance(1, 4), fixed, word: rng.chance(1, 6), smart: rng.chance(1, 8), xline: rng.chance(1, 6), pats, input }
 }
 
 /// The `m …` entries of an event stream (offset and bytes are what identifies a reported line).
@@ -652,22 +775,50 @@ fn run_case(line: &str, drv: &mut Driver, rep: &mut Report) {
         });
     }
     // F: impl vs the property
-    let cr_in_content = lines.iter().any(|l| content(l, cfg.lt).contains(&b'\r'));
-    // is the matcher's verdict on some line different in buffer context and on the line alone?
-    // (that — and only that — is what findings F1 / F2 / F24 are about)
-    // does a match found in buffer context CONTAIN a terminator byte (the `\n` / NUL, or the `\r` of `\r\n`)? The
-    // matcher must never do that (strip.rs removes the terminator from everything that could match it); no known
-    // finding is about such a match.
+    //
+    // Attribution to a known-finding class is decided LINE BY LINE: every line on which the searcher deviates
+    // from the property must show the class's own mechanism; one deviating line without it makes the whole case
+    // unclassified. The facts used, per line ℓ (offset `off`, bytes `l`, content `cont`):
+    //   prop      the property's bit (reference regex on the content, flipped by -v)
+    //   imp_bit   the searcher reported ℓ as matching
+    //   alone     ripgrep's matcher on the sliced content (what the slow path asks)
+    //   in_ctx    ripgrep's matcher in buffer context, from the start of ℓ (what the fast path asks), `mm` its match
+    let matched_offs = |run: &str| -> std::collections::HashSet<usize> {
+        let (evs, _) = split_run(run);
+        evs.iter()
+            .filter(|e| e.starts_with("m "))
+            .filter_map(|e| e.split(' ').nth(2).and_then(|x| x.parse::<usize>().ok()))
+            .collect()
+    };
+    let imp_offs = matched_offs(&imp);
+    // the property's reported lines: the grep model over the reference's selection (with stop_on_nonmatch the lines
+    // behind the stop are not reported although the reference selects them)
+    let prop_offs = matched_offs(&spec_r);
+    // the reference again as a regex-automata meta regex: it can be asked for a match inside a byte span of the
+    // content with the look-arounds still seeing the bytes around the span (needed for the F18 mechanism)
+    let meta = regex_automata::meta::Regex::builder()
+        .syntax(regex_automata::util::syntax::Config::new().multi_line(true).unicode(true).utf8(false).crlf(c.cfg.lt == Lt::Crlf))
+        .configure(regex_automata::meta::Regex::config().utf8_empty(false))
+        .build(re.as_str())
+        .ok();
+    let has_crlf_aware_look = c.pats.iter().any(|p| p.contains("(?R"));
+    let has_haystack_anchor = c.pats.iter().any(|p| p.contains("\\A") || p.contains("\\z") || p.contains("(?-m:"));
+    let has_unicode_word_look = c.word || c.pats.iter().any(|p| p.contains("\\b") || p.contains("\\B"));
     let mut crosses_terminator = false;
-    let ctx_dependent = {
+    let mut ctx_dependent = false;
+    let mut line_classes: Vec<&'static str> = vec![]; // one entry per deviating line ("" = no mechanism found)
+    let mut dev_notes: Vec<String> = vec![];
+    {
         let mut off = 0usize;
-        let mut dep = false;
-        for l in &lines {
+        for (idx, l) in lines.iter().enumerate() {
             let cont = content(l, cfg.lt);
-            let line_last = off + l.len() - if l.last() == Some(&cfg.lt.byte()) { 1 } else { 0 };
-            if let Ok(Some(mm)) = m.find_at(&c.input, off) {
-                let bytes = &c.input[mm.start()..mm.end()];
-                if bytes.contains(&cfg.lt.byte()) {
+            let terminated = l.last() == Some(&cfg.lt.byte());
+            let line_last = off + l.len() - if terminated { 1 } else { 0 };
+            let mm = m.find_at(&c.input, off).ok().flatten();
+            // a match found in buffer context that CONTAINS a terminator byte (`\n` / NUL, or the `\r` of `\r\n`):
+            // the matcher must never do that (strip.rs); no known finding is about such a match
+            if let Some(mm) = &mm {
+                if c.input[mm.start()..mm.end()].contains(&cfg.lt.byte()) {
                     crosses_terminator = true;
                 }
                 if cfg.lt == Lt::Crlf {
@@ -678,25 +829,101 @@ fn run_case(line: &str, drv: &mut Driver, rep: &mut Report) {
                     }
                 }
             }
-            let in_ctx = m.find_at(&c.input, off).ok().flatten().map_or(false, |mm| mm.start() <= line_last);
+            let in_ctx = mm.as_ref().map_or(false, |mm| mm.start() <= line_last);
             let alone = m.is_match(cont).unwrap_or(false);
             if in_ctx != alone {
-                dep = true;
+                ctx_dependent = true;
+            }
+            let prop = prop_offs.contains(&off);
+            let imp_bit = imp_offs.contains(&off);
+            if imp_bit != prop {
+                let ref_full = re.is_match(cont);
+                // --- F18 `crlf-cr-unmatchable` (matcher level, any path). Mechanism: under --crlf the content holds a
+                // CR that is not part of the terminator; ripgrep's matcher on the sliced content disagrees with the
+                // reference; and it says exactly what the reference says when no match may CONTAIN a CR byte (a
+                // match inside one of the CR-free stretches of the content, look-arounds still seeing the CRs) —
+                // i.e. the pattern matches this line only through the CR; the searcher follows the matcher.
+                let f18 = cfg.lt == Lt::Crlf && cont.contains(&b'\r') && alone != ref_full && imp_bit == (alone != cfg.inv) && {
+                    let mut cr_free = false;
+                    if let Some(meta) = &meta {
+                        let mut a = 0usize;
+                        for k in 0..=cont.len() {
+                            if k == cont.len() || cont[k] == b'\r' {
+                                if meta.search(&regex_automata::Input::new(cont).span(a..k)).is_some() {
+                                    cr_free = true;
+                                }
+                                a = k + 1;
+                            }
+                        }
+                    }
+                    meta.is_some() && cr_free == alone
+                };
+                // --- F1 `fastpath-matcher-not-linesafe-crlf`. Mechanism: fast path under --crlf, the line ends in
+                // `\r\n`, the match the fast path accepts is the EMPTY match at the position between that `\r` and
+                // `\n`, the content itself has no match (matcher on the slice and reference agree on that), and the
+                // searcher reported the line because of it.
+                let f1 = cfg.lt == Lt::Crlf
+                    && path == "fast"
+                    && l.ends_with(b"\r\n")
+                    && mm.as_ref().map_or(false, |mm| mm.start() == mm.end() && mm.start() == off + l.len() - 1)
+                    && !alone
+                    && !ref_full
+                    && imp_bit == !cfg.inv;
+                // --- F2 `fastpath-matcher-not-linesafe`, CRLF-aware look under an LF terminator. Mechanism: fast path,
+                // the pattern has a `(?R…)` look, the content ends in `\r` (so `(?R)$` sits between `\r` and `\n` in
+                // the buffer but at the end of the slice), the matcher's verdict differs between buffer context and
+                // slice, the property agrees with the slice, the searcher followed the buffer verdict.
+                let follows_ctx = in_ctx != alone && ref_full == alone && imp_bit == (in_ctx != cfg.inv);
+                let f2 = cfg.lt == Lt::Lf && path == "fast" && has_crlf_aware_look && terminated && cont.last() == Some(&b'\r') && follows_ctx;
+                // --- F24 (same class, any terminator), Unicode word look at a line that starts with UTF-8 continuation bytes.
+                // Mechanism: fast path, the pattern has `\b` / `\B` / -w, the line is not the first one and its
+                // content starts with 1–3 continuation bytes (decode_last walks back over them onto the previous
+                // line's terminator in the buffer, onto the start of the haystack on the slice), and `follows_ctx`.
+                let cont_bytes = cont.iter().take_while(|&&x| (0x80..=0xBF).contains(&x)).count();
+                let f24 = path == "fast" && has_unicode_word_look && idx > 0 && (1..=3).contains(&cont_bytes) && follows_ctx;
+                // --- `nul-terminator-haystack-anchor-fastpath`. Mechanism: NUL terminator, fast path (taken because NUL is
+                // a non-matching byte although the matcher withholds its line terminator), the pattern has a haystack
+                // anchor (`\A`, `\z`, `(?-m:^)`, `(?-m:$)`), which holds at the ends of the BUFFER instead of the ends of the
+                // line: verdict in buffer context ≠ verdict on the slice, property agrees with the slice, searcher follows
+                // the buffer.
+                let fnul = cfg.lt == Lt::Nul && path == "fast" && has_haystack_anchor && follows_ctx;
+                let cl = if crosses_terminator {
+                    ""
+                } else if fnul {
+                    "nul-terminator-haystack-anchor-fastpath"
+                } else if f18 {
+                    "crlf-cr-unmatchable"
+                } else if f1 {
+                    "fastpath-matcher-not-linesafe-crlf"
+                } else if f2 || f24 {
+                    "fastpath-matcher-not-linesafe"
+                } else {
+                    ""
+                };
+                line_classes.push(cl);
+                dev_notes.push(format!(
+                    "line@{} class={:?} in_ctx={} alone={} ref={} imp={} mm={:?}",
+                    off,
+                    cl,
+                    in_ctx,
+                    alone,
+                    ref_full,
+                    imp_bit,
+                    mm.as_ref().map(|x| (x.start(), x.end()))
+                ));
             }
             off += l.len();
         }
-        dep
-    };
+    }
     if ctx_dependent {
         rep.branch("matcher-verdict-depends-on-buffer-context");
     }
     if crosses_terminator {
         rep.branch("matcher-match-contains-terminator");
     }
-    let class = if crosses_terminator {
-        ""
-    } else if cfg.lt == Lt::Crlf && cr_in_content && bits_m != bits_r {
-        // matcher level: under --crlf the pattern is rewritten so that it can match neither \r nor \n
+    // the coarse predicates the classes used to be decided by (kept as counters only)
+    let cr_in_content = lines.iter().any(|l| content(l, cfg.lt).contains(&b'\r'));
+    let coarse = if cfg.lt == Lt::Crlf && cr_in_content && bits_m != bits_r {
         "crlf-cr-unmatchable"
     } else if path == "fast" && safe == "0" && ctx_dependent {
         if cfg.lt == Lt::Crlf {
@@ -707,6 +934,25 @@ fn run_case(line: &str, drv: &mut Driver, rep: &mut Report) {
     } else {
         ""
     };
+    // with stop_on_nonmatch a first deviation moves the point where the search stops, so every later difference is its
+    // consequence: only the FIRST deviating line has to show the mechanism then
+    if cfg.son && line_classes.len() > 1 {
+        line_classes.truncate(1);
+    }
+    let class: &str = if !line_classes.is_empty() && !crosses_terminator && line_classes.iter().all(|c| !c.is_empty()) {
+        line_classes[0]
+    } else {
+        ""
+    };
+    if reported(&imp) != reported(&spec_r) {
+        if !class.is_empty() {
+            for cl in &line_classes {
+                rep.branch(&format!("class:{}:attributed", cl));
+            }
+        } else if !coarse.is_empty() {
+            rep.branch(&format!("class:{}:coarse-predicate-only-reported-unclassified", coarse));
+        }
+    }
     if reported(&imp) != reported(&spec_r) {
         rep.violation(Violation {
             kind: "impl_vs_spec".into(),
@@ -714,12 +960,14 @@ fn run_case(line: &str, drv: &mut Driver, rep: &mut Report) {
             tie: "lines reported as matching vs the reference regex on each line's content".into(),
             case: line.to_string(),
             detail: format!(
-                "patterns {:?} input {:?} ({} path): reported {:?}, property says {:?}",
+                "patterns {:?} input {:?} ({} path): reported {:?}, property says {:?}; deviating lines: {}{}",
                 c.pats,
                 show(&c.input),
                 path,
                 reported(&imp),
-                reported(&spec_r)
+                reported(&spec_r),
+                dev_notes.join(" / "),
+                if crosses_terminator { " [a match in buffer context contains a terminator byte]" } else { "" }
             ),
         });
     }
@@ -768,6 +1016,7 @@ fn main() {
                 1 | 9 => gen_limit_case(&mut rng),
                 4 => gen_smart_nolit_case(&mut rng),
                 7 | 10 => gen_capture_case(&mut rng),
+                2 | 5 => gen_probe_case(&mut rng),
                 _ => gen_case(&mut rng),
             }
             .line();
